@@ -123,7 +123,7 @@ func TestVerif_C02_e2eh2(t *testing.T) {
 		}
 	}()
 	dir := t.TempDir()
-	n := verifh.N(220, 5000)
+	n := verifh.N(220, 2500)
 	var cl *Client
 	small := false
 	fails := 0
@@ -261,7 +261,7 @@ func TestVerif_C02_e2eh3(t *testing.T) {
 	}()
 	base := "https://" + udp.LocalAddr().String()
 	dir := t.TempDir()
-	n := verifh.N(160, 4000)
+	n := verifh.N(160, 2000)
 	var cl *Client
 	autoDecomp := false
 	fails := 0
